@@ -28,7 +28,21 @@ fn check(kind: &str, arg: &str) -> Option<Cex> {
                 let inc = b.windows(2).all(|w| w[0] < w[1]) && b.iter().all(|y| y & !x == !x) && b.len() == n && b.last() == Some(&u64::MAX);
                 let sg = c.iter().map(|v| *v as u64).collect::<Vec<_>>() == a;
                 let w = d.iter().map(|v| (*v >> 64) as u64).collect::<Vec<_>>() == a;
-                if !(dec && inc && sg && w) { return mk(format!("wide masks of {:#x}: dec={} inc={} signed={} u128={}", x, dec, inc, sg, w), "all true".into()); } } } }
+                if !(dec && inc && sg && w) { return mk(format!("wide masks of {:#x}: dec={} inc={} signed={} u128={}", x, dec, inc, sg, w), "all true".into()); } } }
+            // every other width / signedness: same masks as the u64 run on the low bits, ending in 0 resp. all-ones (-1 for signed types)
+            macro_rules! same_as_u64 { ($t:ty, $ut:ty) => {{
+                let xm = (x as $ut) as $t;
+                let want_sub: Vec<$ut> = { let xx = x as $ut; let mut v: Vec<$ut> = Vec::new(); let mut s = xx; loop { v.push(s); if s == 0 { break; } s = (s - 1) & xx; } v };
+                let got = guarded(|| (iter_submasks(xm).map(|v| v as $ut).collect::<Vec<$ut>>(), iter_supermasks(!xm).map(|v| v as $ut).collect::<Vec<$ut>>()));
+                match got { Err(e) => return mk(e, "no panic".into()), Ok((a, b)) => {
+                    let want_sup: Vec<$ut> = { let mut v: Vec<$ut> = want_sub.iter().map(|s| !s).collect(); v.sort(); v };
+                    if a != want_sub || b != want_sup { return mk(format!("{} masks of {:#x}: submasks {:?}.. supermasks ..{:?}", stringify!($t), x, a.iter().take(3).collect::<Vec<_>>(), b.iter().rev().take(2).collect::<Vec<_>>()),
+                        format!("submasks {:?}.. supermasks ..{:?} (by bit pattern)", want_sub.iter().take(3).collect::<Vec<_>>(), want_sup.iter().rev().take(2).collect::<Vec<_>>())); } } }
+            }}; }
+            if x.count_ones() <= 12 {
+                same_as_u64!(isize, usize); same_as_u64!(usize, usize); same_as_u64!(i64, u64); same_as_u64!(i32, u32); same_as_u64!(u32, u32);
+                same_as_u64!(i16, u16); same_as_u64!(u16, u16); same_as_u64!(i128, u128); same_as_u64!(u128, u128);
+            } }
         "perm" => { let v: Vec<u8> = arg.bytes().map(|b| b - b'0').collect();
             // next_permutation step against the sorted list of distinct arrangements
             let mut all: Vec<Vec<u8>> = Vec::new();
